@@ -7,6 +7,7 @@ the path controller.  Nothing here knows about dassh.
 from __future__ import annotations
 import math
 import random
+import time
 from fractions import Fraction
 
 SQRT3F = math.sqrt(3.0)
@@ -422,6 +423,10 @@ class Point:
                 val = self.eval(d[1])
             elif d[0] == 'min':
                 val = min(self.eval(x) for x in d[1])
+            elif d[0] == 'round':
+                val = float(round(self.eval(d[1])))
+            elif d[0] == 'floor':
+                val = float(math.floor(self.eval(d[1])))
             else:
                 raise EngineLimit(f'unknown definition {d[0]}')
         else:
@@ -481,6 +486,10 @@ class Point:
                 if d[0] == 'min':
                     return min(ev(x) for x in d[1])
                 x = ev(d[1])
+                if d[0] == 'round':
+                    return mpmath.nint(x)
+                if d[0] == 'floor':
+                    return mpmath.floor(x)
                 return mpmath.sqrt(x) if d[0] == 'sqrt' else x
             if name == 'PI':
                 return mpmath.pi
@@ -832,6 +841,9 @@ CTRL = None
 
 
 def decide(b):
+    if CTRL is not None and time.time() > CTRL.deadline:
+        raise PathLimit(f'path exploration exceeded {CTRL.max_seconds} s (possible non-termination of the code '
+                        'under verification)')
     t = const_truth(b)
     if t is not None:
         return t
@@ -850,8 +862,10 @@ class Controller:
     feasibility oracle: callable(list_of_bool_nodes) -> 'sat' | 'unsat' | 'unknown'
     """
 
-    def __init__(self, oracle, max_paths=64, max_decisions=4000):
+    def __init__(self, oracle, max_paths=64, max_decisions=4000, max_seconds=90):
         self.oracle = oracle
+        self.max_seconds = max_seconds
+        self.deadline = time.time() + max_seconds
         self.max_paths = max_paths
         self.max_decisions = max_decisions
         self.stats = dict(paths=0, decisions=0, forced=0, oracle_calls=0,
@@ -880,6 +894,9 @@ class Controller:
         self.stats['decisions'] += 1
         if self.stats['decisions'] > self.max_decisions:
             raise PathLimit('too many decisions')
+        if time.time() > self.deadline:
+            raise PathLimit(f'path exploration exceeded {self.max_seconds} s (possible non-termination of the code '
+                            'under verification)')
         ft = self._feasible(b)
         ff = self._feasible(nb)
         if ft and ff:
@@ -948,6 +965,49 @@ class Controller:
 
 class Infeasible(Exception):
     pass
+
+
+def _int_atom(kind, x):
+    """integer atom K = round(x) / floor(x) of a real node x (one atom per node)"""
+    if is_const(x) and x.val.is_rational():
+        q = x.val.a
+        if kind == 'floor':
+            return C(q.numerator // q.denominator)
+        return C(int(round(q)))
+    if int_valued(x):
+        return x
+    tab = CTX.__dict__.setdefault('_intatoms', {})
+    key = (kind, x.id)
+    if key not in tab:
+        tab[key] = CTX.var(f'{kind}@{x.id}', kind='int', defn=(kind, x))
+    return tab[key]
+
+
+def int_valued(x):
+    """x is an integer-coefficient polynomial in integer atoms (hence integer valued)"""
+    from . import normal
+    try:
+        fr = normal.convert(x)
+    except Exception:
+        return False
+    if fr.c != 1 or fr.m or fr.f:
+        return False
+    tab = CTX.__dict__.get('_vname', {})
+    for m in fr.n:
+        for v, e in m:
+            nm = tab.get(v, '')
+            if not nm.startswith('v_') or CTX.atoms[nm[2:]]['kind'] != 'int':
+                return False
+    return True
+
+
+def round_node(x):
+    """nearest integer (ties unspecified): |x - K| <= 1/2"""
+    return _int_atom('round', x)
+
+
+def floor_node(x):
+    return _int_atom('floor', x)
 
 
 def sym_min(*args, **kw):
